@@ -92,6 +92,8 @@ struct Args
 static std::vector<Op> g_cur_hist;
 static Args*           g_args = nullptr;
 static const char*     g_ckname = "";
+static const char*     g_replay_engine = "seqmc";
+static const Config*   g_cur_cfg = nullptr; // configuration of the execution in progress (crash reports)
 
 static std::string write_replay(const Args& a, const std::vector<Op>& hist, const std::string& props, const std::string& clause)
 {
@@ -100,7 +102,8 @@ static std::string write_replay(const Args& a, const std::vector<Op>& hist, cons
     snprintf(
         b,
         sizeof b,
-        "engine seqmc\ncontainer %s\ncfg %d %d %d %d %g %d %d %g %d\nprops %s\nclause %s\n",
+        "engine %s\ncontainer %s\ncfg %d %d %d %d %g %d %d %g %d\nprops %s\nclause %s\n",
+        g_replay_engine,
         g_ckname,
         a.cfg.cap,
         a.cfg.nkeys,
@@ -132,7 +135,10 @@ static void crash_report(const char* why)
     // fatal sanitizer report / abort / hang while executing g_cur_hist: memory-safety violation
     if (!g_args)
         _exit(3);
-    std::string p = write_replay(*g_args, g_cur_hist, "C08", why);
+    Args ra = *g_args;
+    if (g_cur_cfg)
+        ra.cfg = *g_cur_cfg;
+    std::string p = write_replay(ra, g_cur_hist, "C08", why);
     char        b[1024];
     int         n = snprintf(
         b,
@@ -1060,9 +1066,326 @@ struct Engine
 
 #include "product.inc"
 
+// -------------------------------------------------------------------------------------------------
+// "fill" mode: exhaustive sweep over the configuration axis the state search cannot reach - every
+// capacity in [1, capmax] x a grid of load factors x a few fixed fill / overflow / erase / refill
+// scripts.  It exists for the mechanisms that only act at scale (hash-table growth: the caches store
+// iterators into their unordered_map and rely on it never rehashing).  Oracle: policy-independent
+// invariants through the public API (values, size, resident count) plus, in the san flavour, the
+// sanitizers and checked iterators.
+// -------------------------------------------------------------------------------------------------
+template<class AD>
+struct Fill
+{
+    static constexpr CK     ck = AD::kind;
+    static constexpr Traits T  = traits_of(ck);
+    Args&           a;
+    Config          cfg;
+    std::vector<Op> hist;
+    long            runs{0}, steps{0};
+    struct VRec
+    {
+        std::string props, clause, replay, hist;
+    };
+    std::vector<VRec> viols;
+    double            t0;
+
+    explicit Fill(Args& aa) : a(aa), cfg(aa.cfg) {}
+
+    void bad(int prop, const std::string& clause)
+    {
+        if (viols.size() >= 10)
+            return;
+        char pb[8];
+        snprintf(pb, sizeof pb, "C%02d", prop);
+        if (prop != a.prop)
+            return;
+        VRec v;
+        v.props  = pb;
+        v.clause = clause;
+        Args ra  = a;
+        ra.cfg   = cfg;
+        v.replay = write_replay(ra, hist, pb, clause);
+        std::string hs;
+        for (size_t i = 0; i < hist.size() && i < 12; i++)
+            hs += (i ? "; " : "") + op_str(hist[i]);
+        v.hist = hs + (hist.size() > 12 ? "; ... (" + std::to_string(hist.size()) + " operations, see replay)" : "");
+        viols.push_back(v);
+    }
+
+    struct Ref
+    {
+        std::map<int, int> wid; // keys the harness wrote and has not erased (may have been evicted)
+    };
+
+    Result ap(AD& ad, Op o)
+    {
+        o.rngq = 3;
+        hist.push_back(o);
+        g_cur_hist = hist;
+        steps++;
+        alarm(60);
+        return ad.apply(o);
+    }
+    Op mkins(int k, int w)
+    {
+        Op o;
+        o.k      = OpK::Insert;
+        o.n      = 1;
+        o.key[0] = (int8_t)k;
+        o.wid[0] = w;
+        o.ttl[0] = 100;
+        return o;
+    }
+    Op mk1(OpK kk, int k)
+    {
+        Op o;
+        o.k      = kk;
+        o.n      = 1;
+        o.key[0] = (int8_t)k;
+        o.peek   = 1;
+        return o;
+    }
+    // every key the reference knows must, if found, carry its write; the number found must equal
+    // min(#known, capacity) (no expiry in these scripts) and size() must say the same
+    void verify(AD& ad, Ref& ref, int maxkey, const char* where)
+    {
+        int found = 0;
+        for (int k = 1; k <= maxkey; k++)
+        {
+            Result r = ad.apply(mk1(OpK::Find, k)); // peek where available; not recorded in the history
+            if (r.v[0])
+            {
+                found++;
+                auto it = ref.wid.find(k);
+                if (it == ref.wid.end())
+                    bad(1, std::string(where) + ": key " + std::to_string(k) + " is found but was erased / never written");
+                else if (!T.is_set && r.v[1] != (g_val_eq_mode ? k : it->second))
+                    bad(1, std::string(where) + ": key " + std::to_string(k) + " returns write " + std::to_string(r.v[1]) + ", latest write is " + std::to_string(it->second));
+            }
+        }
+        Obs  ob   = ad.observe();
+        long want = T.has_capacity ? std::min<long>((long)ref.wid.size(), cfg.cap) : (long)ref.wid.size();
+        if (found != want)
+        {
+            bad(3, std::string(where) + ": " + std::to_string(found) + " keys are found, " + std::to_string(want) + " must be resident");
+            // resynchronise: forget what is gone
+            for (auto it = ref.wid.begin(); it != ref.wid.end();)
+            {
+                Result r = ad.apply(mk1(OpK::Find, it->first));
+                it       = r.v[0] ? std::next(it) : ref.wid.erase(it);
+            }
+        }
+        if (ob.size != found || ob.empty != (found == 0) || (T.has_capacity && ob.capacity != cfg.cap))
+            bad(2, std::string(where) + ": size() " + std::to_string(ob.size) + " empty() " + std::to_string(ob.empty) + " capacity() " + std::to_string(ob.capacity) + " with " + std::to_string(found) + " keys found");
+    }
+    void forget_evicted(AD& ad, Ref& ref)
+    {
+        for (auto it = ref.wid.begin(); it != ref.wid.end();)
+        {
+            Result r = ad.apply(mk1(OpK::Find, it->first));
+            it       = r.v[0] ? std::next(it) : ref.wid.erase(it);
+        }
+    }
+
+    void script(int which)
+    {
+        hist.clear();
+        g_cur_cfg       = &cfg;
+        g_now_ns        = BASE_NS;
+        ValStats before = g_vs;
+        {
+            AD  ad(cfg);
+            Ref ref;
+            int cap = cfg.cap, w = 1;
+            int maxkey = std::min(2 * cap + 4, 120);
+            auto ins = [&](int k) {
+                Result r = ap(ad, mkins(k, w));
+                if (!r.v[0])
+                    bad(9, "insert_or_update of key " + std::to_string(k) + " was rejected");
+                ref.wid[k] = w++;
+                if (T.has_capacity && (int)ref.wid.size() > cap)
+                    forget_evicted(ad, ref);
+            };
+            auto era = [&](int k) {
+                bool   was = ad.apply(mk1(OpK::Find, k)).v[0];
+                Result r   = ap(ad, mk1(OpK::Erase, k));
+                if ((bool)r.v[0] != was)
+                    bad(1, "erase(" + std::to_string(k) + ") returned " + std::to_string(r.v[0]) + " but the key was " + (was ? "found" : "not found") + " just before");
+                ref.wid.erase(k);
+            };
+            if (which == 0)
+            {
+                // fill beyond capacity, erase everything in ascending order, refill
+                for (int k = 1; k <= cap + 3 && k <= maxkey; k++)
+                {
+                    ins(k);
+                    verify(ad, ref, maxkey, "after fill insert");
+                }
+                for (int k = 1; k <= cap + 3 && k <= maxkey; k++)
+                    era(k);
+                verify(ad, ref, maxkey, "after erasing everything");
+                for (int k = 1; k <= cap && k <= maxkey; k++)
+                    ins(k);
+                verify(ad, ref, maxkey, "after refill");
+            }
+            else if (which == 1)
+            {
+                // fill, erase the newer half in descending order, insert new keys past capacity, update all
+                for (int k = 1; k <= cap; k++)
+                    ins(k);
+                for (int k = cap; k > cap / 2; k--)
+                    era(k);
+                verify(ad, ref, maxkey, "after erasing the newer half");
+                for (int k = cap + 1; k <= maxkey; k++)
+                    ins(k);
+                verify(ad, ref, maxkey, "after overflow inserts");
+                for (int k = 1; k <= maxkey; k++)
+                    if (ref.wid.count(k))
+                        ins(k);
+                verify(ad, ref, maxkey, "after updating every resident key");
+            }
+            else
+            {
+                // sliding window: insert k+1, erase k
+                for (int k = 1; k < maxkey; k++)
+                {
+                    ins(k);
+                    ins(k + 1);
+                    era(k);
+                    if (k % 3 == 0)
+                        verify(ad, ref, maxkey, "sliding window");
+                }
+                if constexpr (T.has_clear)
+                {
+                    Op c;
+                    c.k = OpK::Clear;
+                    ap(ad, c);
+                    ref.wid.clear();
+                    verify(ad, ref, maxkey, "after clear()");
+                    for (int k = 1; k <= cap + 1 && k <= maxkey; k++)
+                        ins(k);
+                    verify(ad, ref, maxkey, "refill after clear()");
+                }
+            }
+        }
+        if (g_vs.live != before.live || g_vs.bad_destroy != before.bad_destroy || g_vs.bad_use != before.bad_use)
+        {
+            bad(8, "value instances not destroyed exactly once (" + std::to_string(g_vs.live - before.live) + " still alive)");
+            g_vs = before;
+        }
+        runs++;
+    }
+
+    // replay of a recorded fill history: same calls, same reference, verify after every call
+    int replay(const std::vector<Op>& ops)
+    {
+        hist.clear();
+        g_now_ns = BASE_NS;
+        AD  ad(cfg);
+        Ref ref;
+        int maxkey = 1;
+        for (auto& o : ops)
+            for (int i = 0; i < o.n; i++)
+                maxkey = std::max<int>(maxkey, o.key[i]);
+        printf("replaying %zu calls on %s capacity %d load factor %g hash mode %d\n", ops.size(), g_ckname, cfg.cap, cfg.lf, cfg.hash);
+        size_t before = viols.size();
+        for (auto& o : ops)
+        {
+            bool was = (o.k == OpK::Erase) ? (bool)ad.apply(mk1(OpK::Find, o.key[0])).v[0] : false;
+            Result r = ap(ad, o);
+            if (o.k == OpK::Insert)
+            {
+                ref.wid[o.key[0]] = o.wid[0];
+                if (T.has_capacity && (int)ref.wid.size() > cfg.cap)
+                    forget_evicted(ad, ref);
+            }
+            else if (o.k == OpK::Erase)
+            {
+                if ((bool)r.v[0] != was)
+                    bad(a.prop, "erase result disagrees with the lookup just before");
+                ref.wid.erase(o.key[0]);
+            }
+            else if (o.k == OpK::Clear)
+                ref.wid.clear();
+            verify(ad, ref, maxkey, "replay");
+            printf("  %-48s -> %s size=%ld%s\n", op_str(o).c_str(), r.str().c_str(), ad.observe().size, viols.size() > before ? "   <-- DEVIATION" : "");
+            if (viols.size() > before)
+                break;
+        }
+        for (size_t i = before; i < viols.size(); i++)
+            printf("    DEVIATION [%s] %s\n", viols[i].props.c_str(), viols[i].clause.c_str());
+        printf(viols.size() > before ? "RESULT: deviation reproduced\n" : "RESULT: no deviation\n");
+        return viols.size() > before ? 1 : 0;
+    }
+
+    void run(int capmax)
+    {
+        t0 = wall();
+        g_replay_engine = "seqmc-fill";
+        static const float lfs[] = {0.1f, 0.25f, 0.5f, 0.75f, 1.0f, 2.0f, 4.0f};
+        for (int cap = 1; cap <= capmax; cap++)
+            for (float lf : lfs)
+                for (int h = 0; h <= (cap <= 8 ? 1 : 0); h++)
+                    for (int sc = 0; sc < 3; sc++)
+                    {
+                        cfg.cap     = cap;
+                        cfg.lf      = lf;
+                        cfg.hash    = h;
+                        cfg.nkeys   = 3;
+                        cfg.ttl_ms  = 100;
+                        g_hash_mode = h;
+                        script(sc);
+                    }
+    }
+};
+
+template<class AD>
+static int run_fill(Args& a)
+{
+    Fill<AD> f(a);
+    int      capmax = a.cfg.cap;
+    f.run(capmax);
+    printf("RESULT {\"container\":\"%s\",\"prop\":\"C%02d\",\"mode\":\"fill\",", g_ckname, a.prop);
+    printf(
+        "\"cfg\":{\"cap\":%d,\"nkeys\":0,\"ts\":%d,\"hash\":2,\"lf\":0,\"ttl_ms\":100,\"tick_ms\":%d,\"ratio\":%g,\"rangelen\":0,\"devs\":0,"
+        "\"cmax\":0,\"valeq\":%d,\"what\":\"capacity 1..%d x load factor {0.1,0.25,0.5,0.75,1,2,4} x 3 fill/overflow/erase/refill scripts\"},",
+        capmax,
+        a.cfg.ts,
+        a.cfg.tick_ms,
+        a.cfg.ratio,
+        a.cfg.valeq,
+        capmax);
+    printf(
+        "\"states\":%ld,\"transitions\":%ld,\"executions\":%ld,\"max_depth\":0,\"fixpoint\":true,\"capped\":false,\"sweep_depth\":0,"
+        "\"sweep_seqs\":0,\"foreign_pruned\":0,\"unattributed_pruned\":0,\"distinct_outcomes\":2,\"c15_groups\":0,\"wall_s\":%.2f,",
+        f.runs,
+        f.steps,
+        f.runs,
+        wall() - f.t0);
+    printf("\"samples\":[\"fill scripts over the capacity x load-factor grid (%ld runs, %ld calls)\"],\"violations\":[", f.runs, f.steps);
+    for (size_t i = 0; i < f.viols.size(); i++)
+        printf(
+            "%s{\"props\":\"%s\",\"clause\":\"%s\",\"replay\":\"%s\",\"history\":\"%s\"}",
+            i ? "," : "",
+            f.viols[i].props.c_str(),
+            jesc(f.viols[i].clause).c_str(),
+            f.viols[i].replay.c_str(),
+            jesc(f.viols[i].hist).c_str());
+    printf("]}\n");
+    fflush(stdout);
+    return f.viols.empty() ? 0 : 1;
+}
+
 template<class A>
 static int run(Args& a, const std::vector<Op>& replay_ops)
 {
+    if (a.mode == "fillreplay")
+    {
+        Fill<A> f(a);
+        f.t0 = wall();
+        return f.replay(replay_ops);
+    }
     if (a.mode == "replay")
     {
         Engine<A> e(a);
@@ -1071,6 +1394,8 @@ static int run(Args& a, const std::vector<Op>& replay_ops)
     }
     if (a.mode == "preplay")
         return run_product<A>(a);
+    if (a.mode == "fill")
+        return run_fill<A>(a);
     if (a.mode == "graph")
     {
         Engine<A> e(a);
@@ -1194,6 +1519,8 @@ int main(int argc, char** argv)
             }
             else if (!strncmp(line, "engine seqmc-product", 20))
                 a.mode = "preplay";
+            else if (!strncmp(line, "engine seqmc-fill", 17))
+                a.mode = "fillreplay";
             else if (!strncmp(line, "props ", 6))
             {
                 int p = 0;
